@@ -347,6 +347,15 @@ def rule_reader_min(prog, res, rule="R-LIN"):
                         keys["ivar"] = an0.cellkey(f, r0["i"], st0)
                 elif r0.get("k") == "var" and op == "=":
                     keys["A"] = k
+    if "A" in keys and "T" not in keys and "C" not in keys:
+        # index-only form: the candidate is remembered by its index alone
+        for b in body:
+            for s_ in f.blocks[b].stmts:
+                for lv, op, rhs, w in ir.writes_of(s_):
+                    r0 = ir.strip(rhs) if isinstance(rhs, dict) else None
+                    if isinstance(r0, dict) and r0.get("k") == "var" and an0.cellkey(f, lv, st0) == keys["A"]:
+                        keys["ivar"] = an0.cellkey(f, r0, st0)
+        return _reader_min_index_only(prog, res, f, head, body, keys, pos_p, lap_p, n_p, rule)
     if not all(x in keys for x in ("T", "C", "A", "ivar")):
         res.fail(rule, "reader_min keeps the running minimum", "%s|reader_min|shape" % rule, f.loc(),
                  "reader_min no longer updates the candidate (position, lap, index) together from element i: the index returned does not belong to the smallest cursor")
@@ -409,6 +418,64 @@ def rule_reader_min(prog, res, rule="R-LIN"):
                  "reader_min: %s: the writer measures free space against a reader that is not the slowest one" % "; ".join(sorted(set(problems))))
     else:
         res.oblige(rule, inst, True, "%d iteration state(s)" % len(rec["back"]), f.loc())
+
+
+def _reader_min_index_only(prog, res, f, head, body, keys, pos_p, lap_p, n_p, rule):
+    rec = {"pre": [], "back": []}
+    an = L.Analysis(prog)
+
+    def entry(f_, h, s):
+        if f_ is f:
+            for kk in ("A", "ivar"):
+                if kk in keys:
+                    s.cells["__0__" + kk] = an.read(s, keys[kk])
+    an.on_loop_pre = lambda f_, h, s: rec["pre"].append(s.copy()) if f_ is f else None
+    an.on_loop_entry = entry
+    an.on_backedge = lambda f_, h, s: rec["back"].append(s.copy()) if f_ is f else None
+    rets = an.run(f, L.State())
+    problems = []
+    if "ivar" not in keys:
+        problems.append("the candidate index is not taken from the loop index")
+    for s in rec["pre"]:
+        okp = keys["A"] in s.cells and s.entails_eq(s.cells[keys["A"]]) and keys.get("ivar") in s.cells and \
+            (s.entails_eq(s.cells[keys["ivar"]]) or s.entails_eq(L.lsub(s.cells[keys["ivar"]], L.lconst(1))))
+        if not okp:
+            problems.append("the scan does not start from index 0 (first i in {0,1})")
+    if not rec["back"]:
+        problems.append("the loop body never completes an iteration")
+    for s in rec["back"]:
+        A0, i0 = s.cells.get("__0__A"), s.cells.get("__0__ivar")
+        A1, i1 = s.cells.get(keys["A"]), s.cells.get(keys.get("ivar"))
+        if None in (A0, i0, A1, i1):
+            problems.append("candidate cells lost")
+            continue
+
+        def elem(x):
+            return (an.read(s, "reader_min:%s[%s]" % (lap_p["n"], L.lshow(x))), an.read(s, "reader_min:%s[%s]" % (pos_p["n"], L.lshow(x))))
+        (Ca, Ta), (Ci, Ti) = elem(A0), elem(i0)
+        n = an.read(s, "reader_min:%s" % n_p["n"])
+        keep = [_eq(A1, A0)]
+        take = [_eq(A1, i0)]
+        ok = some(s, keep + [_lt(Ca, Ci)], keep + [_eq(Ca, Ci), _le(Ta, Ti)], take + [_lt(Ci, Ca)], take + [_eq(Ci, Ca), _le(Ti, Ta)])
+        if not ok:
+            problems.append("an iteration can end with a candidate index whose cursor is not the smaller of (previous candidate, element i)")
+        if not s.entails_eq(L.lsub(i1, L.ladd(i0, L.lconst(1)))):
+            problems.append("the index does not advance by one")
+        if not s.entails_le(L.ladd(L.lsub(i0, n), L.lconst(1))):
+            problems.append("the body runs for an index that is not below n")
+    for rv, s in rets:
+        i_ = s.cells.get(keys.get("ivar"))
+        n = an.read(s, "reader_min:%s" % n_p["n"])
+        if i_ is None or not s.entails_le(L.lsub(n, i_)):
+            problems.append("the scan can stop before index n")
+        if rv is None or not s.entails_eq(L.lsub(rv, s.cells.get(keys["A"], {}))):
+            problems.append("the value returned is not the candidate's index")
+    inst = "reader_min keeps the running minimum over all n readers"
+    if problems:
+        res.fail(rule, inst, "%s|reader_min|argmin" % rule, f.loc(),
+                 "reader_min: %s: the writer measures free space against a reader that is not the slowest one" % "; ".join(sorted(set(problems))))
+    else:
+        res.oblige(rule, inst, True, "%d iteration state(s), index-only form" % len(rec["back"]), f.loc())
 
 
 def rule_available(prog, res, rule="R-LIN"):
